@@ -56,6 +56,11 @@ func init() {
 	})
 }
 
+func c06Premises(c *Ctx, p *Prog) {
+	// "unless the game is over": whether the root counts as drawn by repetition is Threefold's answer
+	c.As("C10.R", "C06.R7.repetition:R", func() { c10R1R2(c, p) })
+}
+
 func runC06(c *Ctx) {
 	p := c.need("default")
 	if p == nil {
@@ -66,13 +71,15 @@ func runC06(c *Ctx) {
 	c06R3(c, p)
 	c06R4(c, p)
 	c06R6(c, p)
-	if c.Tier == "thorough" {
-		if sp := c.need("spsa"); sp != nil {
-			c06R5(c, p, sp)
+	c06Premises(c, p)
+	// the tunable build: divisors and shift counts stay valid over the advertised ranges (cheap: data tables only)
+	if sp := c.need("spsa"); sp != nil {
+		c06R5(c, p, sp)
+		if c.Tier == "thorough" {
 			rulePairs(c, sp, "C06.R1[spsa]")
 		}
-		c.Use(p)
 	}
+	c.Use(p)
 }
 
 // C06.R3: the result `move` of iterativeDeepen is assigned only from the PV
